@@ -282,7 +282,8 @@ func TestC20(t *testing.T) {
 	rec := evi.New(t, "C20", evi.Exploration,
 		"case = (table in {cardano-ntc, cardano-ntn, dmq-ntc, dmq-ntn}, version of that table, diffusion, peerSharing, query, magic); "+
 			"for every magic (fixed boundary values + rapid draws) the whole version x 8 flag grid of all four tables is enumerated; "+
-			"oracle = list order/mode purity, era prefix/monotonicity, encode->own-decoder round trip vs generated value and vs the requested arguments, and CDDL shape via independent CBOR reader; "+
+			"each rapid case first replays a history of 1-4 caller-side mutations (reverse / overwrite / append / truncate+append on a returned list, delete / nil-out on a returned version map) and re-reads all four lists; "+
+			"oracle = list order/mode purity, lists unaffected by what callers do to earlier results, era prefix/monotonicity, encode->own-decoder round trip vs generated value and vs the requested arguments, and CDDL shape via independent CBOR reader; "+
 			"non-trivial = magic != 0 or a flag set (decoded value distinguishable from a zero value); distinct by (table, version, flags, magic)")
 	defer rec.Finish()
 	rec.Assume("the version-number spaces (bit 15 = node-to-client, bit 12 = DMQ node-to-client) and the version-data CDDL are the harness author's transcription of the network specification / CIP-0137")
@@ -368,6 +369,60 @@ func TestC20(t *testing.T) {
 			magic = rapid.Uint32Range(0, 2000).Draw(rt, "small")
 			rec.Class("magic_small")
 		}
+		// ---- caller-side mutation history: what a caller does to the list or map it was
+		// handed must not change what later calls return
+		want := map[string]string{}
+		for _, tb := range vTables {
+			want[tb.name] = fmt.Sprint(tb.list())
+		}
+		nMut := rapid.IntRange(1, 4).Draw(rt, "nMut")
+		hist := []string{}
+		for i := 0; i < nMut; i++ {
+			tb := vTables[rapid.IntRange(0, len(vTables)-1).Draw(rt, "mutTable")]
+			l := tb.list()
+			op := rapid.SampledFrom([]string{"reverse", "overwrite", "append", "append-write", "truncate-append", "map-delete"}).Draw(rt, "mutOp")
+			hist = append(hist, tb.name+":"+op)
+			x := rapid.Uint16().Draw(rt, "mutValue")
+			switch op {
+			case "reverse":
+				for a, b := 0, len(l)-1; a < b; a, b = a+1, b-1 {
+					l[a], l[b] = l[b], l[a]
+				}
+			case "overwrite":
+				if len(l) > 0 {
+					l[rapid.IntRange(0, len(l)-1).Draw(rt, "mutIdx")] = x
+				}
+			case "append":
+				l = append(l, x)
+			case "append-write":
+				l = append(l, x, x^0x8000)
+				l[len(l)-1] = 0
+			case "truncate-append":
+				if len(l) > 0 {
+					l = append(l[:rapid.IntRange(0, len(l)-1).Draw(rt, "mutCut")], x)
+				}
+			case "map-delete":
+				vm := tb.gen(magic, true, true, true)
+				for v := range vm {
+					if (v^x)&1 == 0 {
+						delete(vm, v)
+					} else {
+						vm[v] = nil
+					}
+				}
+			}
+			_ = l
+			rec.Eval()
+			rec.Class("caller_mutation:" + op)
+			for _, tb2 := range vTables {
+				if got := fmt.Sprint(tb2.list()); got != want[tb2.name] {
+					rec.Fail(rt, "list-aliased:"+tb2.name,
+						fmt.Sprintf("%s: after a caller modified the slices/maps it had been handed (%v) the list reads %s, before %s", tb2.name, hist, got, want[tb2.name]),
+						map[string]any{"history": hist, "table": tb2.name, "before": want[tb2.name], "after": got})
+				}
+			}
+		}
+		rec.NonTrivial(fmt.Sprintf("mutation-history %v magic=%d", hist, magic), map[string]any{"history": hist, "magic": magic})
 		c20Grid(rec, magic, func(key, what string, cs any) bool { return rec.Fail(rt, key, what, cs) })
 	})
 }
